@@ -71,8 +71,11 @@ class Renderer:
         self.log_name = log_name
         self.call_wrap = call_wrap
 
-    def render(self, fname, cid, nparams, body, lam=False):
-        if lam:
+    def render(self, fname, cid, nparams, body, lam=False, enforce_none=False):
+        """enforce_none: the def itself raises NoneReturnedError when it is about to return None (used by the
+        all-uncached 'pure recomputation' replica for cells that are cached in the program and do not allow None:
+        modelx checks the None rule only when it stores a value, i.e. for cached cells)"""
+        if lam and not enforce_none:
             return self.render_lambda(fname, cid, nparams, body)
         self.lines = []
         self.n = 0
@@ -84,6 +87,8 @@ class Renderer:
         if self.log_name:
             self.lines.append("    %s(%d, (%s))" % (self.log_name, cid, "".join(p + ", " for p in params)))
         atom = self.emit(body, 1)
+        if enforce_none:
+            self.lines.append("    if %s is None: raise NoneReturnedError('c%d')" % (atom, cid))
         self.lines.append("    return %s" % atom)
         return "\n".join(self.lines) + "\n", dict(self.calls)
 
